@@ -228,7 +228,8 @@ type verdict struct {
 	accept     []string // ids of the files that may be served
 	desc       string   // model classification (outcome class component)
 	nontrivial bool
-	escapesFS  bool // fs part: every reading of the location leaves the file system
+	escapesFS  bool              // fs part: every reading of the location leaves the file system
+	exitLink   map[string]string // fs part over os.DirFS: OUTSIDE file id -> kind of the symlink that leads out
 }
 
 func (v *verdict) add(id string) {
@@ -357,8 +358,16 @@ func (sb *sandbox) fsVerdict(dirfs bool, L, altL, loc string, kernel bool) (verd
 			r := m.walk(root, t)
 			d = describe(r, root)
 			if r.kind == rFile {
-				v.add(r.node.id) // for os.DirFS this may be an OUTSIDE file behind a symlink (informational)
+				v.add(r.node.id) // for os.DirFS this may be an OUTSIDE file behind a symlink: what os.DirFS will open
 				v.nontrivial = true
+				if !r.node.under(root) {
+					if v.exitLink == nil {
+						v.exitLink = map[string]string{}
+					}
+					if _, ok := v.exitLink[r.node.id]; !ok {
+						v.exitLink[r.node.id] = m.exitLinkKind(r, root)
+					}
+				}
 			}
 			if kernel && dirfs && r.kind != rUnknown {
 				b, err := os.ReadFile(sb.B + "/root/" + t)
@@ -643,7 +652,10 @@ func judge(part string, dirfs bool, vd *verdict, entry int, o *obs) (kind, oclas
 			}
 		}
 		if strings.HasPrefix(s, tagOutside+":") {
-			return "", "served-OUTSIDE-through-os.DirFS-symlink(informational)", ""
+			// FSLibrary{FS: os.DirFS(rootDir)} is exactly what `elps run/debug/repl
+			// --root-dir` configure (cmd/run.go): a root directory is configured
+			// and an outside file is read or evaluated.
+			return "outside-served-through-symlink:" + vd.exitLink[s], "served-OUTSIDE-through-symlink", "refused: with a root directory configured (lisp.FSLibrary{FS: os.DirFS(root)}, as elps run --root-dir builds it) no file whose real path is outside the root is read or evaluated"
 		}
 		if o.isErr {
 			return "", "served-then-error", ""
@@ -670,6 +682,9 @@ type drv struct {
 
 func (d *drv) violClass(part string, kind string, sb *sandbox, cwdReal string, rc *rootCfg, cx *ctxCfg, L, loc string) string {
 	if part == "fs" {
+		if strings.HasPrefix(kind, "outside-served-through-symlink:") {
+			return "fslib:dirfs:" + kind // one class per kind of link, whatever the context
+		}
 		return "fslib:" + rc.ID + ":" + kind + ":ctx=" + cx.ID
 	}
 	c := "rfl:" + kind + ":root=" + rc.ID + ":ctx=" + cx.ID
@@ -785,9 +800,6 @@ func (d *drv) handle(w *worker, part string, ph *phaseCfg, cwd *node, rc *rootCf
 		}
 	}
 	if kind == "" {
-		if dirfs && strings.HasPrefix(oclass, "served-OUTSIDE") {
-			w.info["fs: os.DirFS followed a symlink out of its directory and FSLibrary served the OUTSIDE file (documented os.DirFS behaviour; `elps run --root-dir` builds its library this way)"]++
-		}
 		if first {
 			d.maybeSample(part, ph, rc, cx, entry, loc, vd, oclass, o)
 		}
@@ -925,7 +937,7 @@ func run(r *core.Run) {
 	r.Assume("refusing a location that is inside the root is never a violation (relative top-level locations under an absolute root, absolute locations under a relative root are always refused)")
 	r.Assume("fs.FS part: FSLibrary delegates rejection of names with '..' to the fs.FS contract; an invalid name ASKED is counted (informational), only data SERVED for it would be a violation; " +
 		"an absolute location from a loading file may be read relative to the loader's directory or re-rooted")
-	r.Assume("fs.FS part: os.DirFS follows a symlink that points outside its directory; that is a documented property of os.DirFS, counted as informational, not as a violation of FSLibrary")
+	r.Assume("fs.FS part: lisp.FSLibrary{FS: os.DirFS(root)} is the configuration `elps run/debug/repl --root-dir` build (cmd/run.go, an anchor file); an OUTSIDE file served through it (os.DirFS follows symlinks out of its directory) violates the statement's first sentence and is reported per kind of link; over fstest.MapFS nothing outside exists")
 	r.Assume("the model is validated against the kernel: for every enumerated (context, location) an unconfined os.ReadFile of the joined string must agree with the model's POSIX walk; lexClean must equal filepath.Clean")
 
 	tot := map[string]int64{}
